@@ -190,7 +190,76 @@ def check_spec(label, spec):
         if d:
             out.append(("C02/reader-field:%s:%s" % (tname, ircases.path_class(d)),
                         "%s: loaded vs message %s" % (label, d)))
+            continue
+        if tw is not None:
+            continue
+        # ---------------- writer direction on a LOADED IR: (a) nothing read
+        # since the load, (b) every table read (the snapshot above did) and
+        # then edited in place through the object .data returned
+        try:
+            y0 = g.IR.load_protobuf_file(io.BytesIO(data))
+            for stage, obj, sp in (("unread", y0, spec),
+                                   ("read-then-edited-in-place", y, None)):
+                if sp is None:
+                    sp = edit_tables_in_place(obj, spec)
+                buf = io.BytesIO()
+                obj.save_protobuf_file(buf)
+                m4 = IR_pb2.IR()
+                m4.ParseFromString(buf.getvalue()[8:])
+                d = irgen.diff(irgen.msg_to_plain(m4),
+                               irgen.spec_to_plain(sp, PV))
+                if d:
+                    out.append(("C02/writer-field-of-loaded-ir:%s:%s"
+                                % (stage, ircases.path_class(d)),
+                                "%s: loaded, %s, saved: written vs schema-"
+                                "expected %s" % (label, stage, d)))
+        except Exception as e:  # noqa
+            import traceback
+
+            out.append(("C02/save-of-loaded-ir-raises:%s" % type(e).__name__,
+                        "%s: %s" % (label, traceback.format_exc()[-300:])))
     return out
+
+
+def edit_tables_in_place(y, spec):
+    """Shrinks every non-empty list / simple-keyed dict / simple set table of
+    the loaded IR y through the object its .data returns (no assignment to
+    .data) and returns the specification of the result."""
+    import copy
+
+    spec2 = copy.deepcopy(spec)
+
+    def simple(v):
+        return all(isinstance(k, (str, int)) and not isinstance(k, bool)
+                   for k in v)
+
+    for kind, node, _ in irgen.walk(spec2):
+        if kind not in ("ir", "module"):
+            continue
+        o = y if kind == "ir" else y.get_by_uuid(node["uuid"])
+        for name, (tname, val) in list(node["aux"].items()):
+            if name not in o.aux_data:
+                continue
+            try:
+                live = o.aux_data[name].data
+            except Exception:  # noqa  (unknown type: stays raw)
+                continue
+            if isinstance(val, list) and val and isinstance(live, list):
+                del live[-1]
+                node["aux"][name] = (tname, val[:-1])
+            elif isinstance(val, dict) and val and simple(val) \
+                    and isinstance(live, dict):
+                k = min(val, key=repr)
+                del live[k]
+                node["aux"][name] = (tname, {a: b for a, b in val.items()
+                                             if a != k})
+            elif isinstance(val, (set, frozenset)) and val and simple(val) \
+                    and isinstance(live, set):
+                k = min(val, key=repr)
+                live.discard(k)
+                node["aux"][name] = (tname, type(val)(a for a in val
+                                                      if a != k))
+    return spec2
 
 
 def work(task):
